@@ -534,6 +534,14 @@ def gen_scripts(chk, which):
             # every history starts with one quiet pass so that autostart happens
             scripts.append((life_gen.script_from_word([c], [{'priority': 999, 'procs': [0]}],
                                                       (life_gen.small_alphabet(U)[1],) + word, U), 'exhaustive'))
+    if which == 'C13':
+        # several requests in flight: every word of length 4 (5 in the thorough tier) over a request-centred alphabet
+        full = {a[0]: a for a in life_gen.small_alphabet(U)}
+        inflight = [full['stopw'], full['startw'], full['start'], full['stop'], full['poll'], full['+1s'], full['+big'], full['exit1']]
+        for c in (mkconf(startsecs=1, stopwaitsecs=1, autorestart=0), mkconf(startsecs=0, stopwaitsecs=2, autorestart=2)):
+            for word in itertools.product(inflight, repeat=4 if quick else 5):
+                scripts.append((life_gen.script_from_word([c], [{'priority': 999, 'procs': [0]}],
+                                                          (full['+1s'],) + word, U), 'inflight'))
     for s in multi_scripts(U):
         scripts.append((s, 'multi'))
     if which in ('C02', 'C06') or not quick:
